@@ -50,6 +50,7 @@ func ProfileByName(name string) *Profile {
 		p.W[KAct] = 10
 		p.MemoPct = 0
 		p.NoStaleCtx = true
+		p.InitPct = 40
 		p.Tmpls = tmplsWhere(func(t Tmpl) bool { return t.HasState() })
 	case "c06", "memo": // Memoize / Debug / Statistics
 		p.MemoPct = 50
